@@ -24,6 +24,7 @@ import (
 	"strings"
 	"sync"
 	"testing"
+	"time"
 
 	"github.com/nuts-foundation/nuts-node/cmd"
 	"github.com/spf13/pflag"
@@ -57,6 +58,10 @@ var factors = []factor{
 	{"didmethods", []string{"unset", "web", "nuts", "web+nuts"}, []string{"nuts+web"}},
 	{"channel", []string{"file", "env", "flags", "mixed"}, nil},
 	{"secret", []string{"none", "env", "file", "cli"}, nil},
+	// bystanders: operational settings that the documents do not connect with strict mode in any way (response cache size, logging,
+	// time-outs, optional subsystems). The reference ignores them: whatever strict mode promises, it promises under each of them.
+	{"http.cache.maxbytes", []string{"unset", "0", "1", "large"}, []string{"negative", "default-spelled-out"}},
+	{"operational", []string{"default", "quiet", "slim", "tuned"}, []string{"quiet+slim+tuned"}},
 }
 
 const (
@@ -71,7 +76,11 @@ const (
 	fDID
 	fChannel
 	fSecret
+	fCache
+	fOps
 )
+
+const nFactors = 13
 
 func values(f int, thorough bool) []string {
 	v := append([]string{}, factors[f].quick...)
@@ -83,7 +92,7 @@ func values(f int, thorough bool) []string {
 
 // config is one point of the product plus the concrete variants chosen for it.
 type config struct {
-	V        [11]string // value per factor
+	V        [nFactors]string // value per factor
 	URL      string     // concrete url for the class
 	TLSVar   string     // variant of partial / legacy
 	CLIFlag  string     // the secret flag put on the command line (secret=cli)
@@ -271,9 +280,10 @@ func classify(msg string) string {
 // ---- from a config to what the user types --------------------------------------------------------------------
 
 type option struct {
-	key   string
-	value any // string or []string
-	force string
+	key     string
+	value   any // string, []string, int or bool
+	force   string
+	fileKey []string // how the key is spelled in the configuration file when it is not simply nested along the dots
 }
 
 type world struct {
@@ -371,6 +381,9 @@ func materialise(c config, dir string, w world) launch {
 	case "nuts+web":
 		add("didmethods", []string{"nuts", "web"})
 	}
+	for _, o := range bystanders(c) {
+		opts = append(opts, o)
+	}
 	switch c.V[fSecret] {
 	case "env":
 		opts = append(opts, option{key: "crypto.vault.token", value: "verif-vault-token", force: "env"})
@@ -398,11 +411,24 @@ func materialise(c config, dir string, w world) launch {
 		}
 		switch ch {
 		case "file":
-			setPath(file, o.key, o.value)
+			if o.fileKey != nil {
+				m := file
+				for _, p := range o.fileKey[:len(o.fileKey)-1] {
+					next, ok := m[p].(map[string]any)
+					if !ok {
+						next = map[string]any{}
+						m[p] = next
+					}
+					m = next
+				}
+				m[o.fileKey[len(o.fileKey)-1]] = o.value
+			} else {
+				setPath(file, o.key, o.value)
+			}
 		case "env":
 			l.Env["NUTS_"+strings.ToUpper(strings.ReplaceAll(o.key, ".", "_"))] = joined(o.value)
 		case "flags":
-			if rnd.Intn(2) == 0 || o.key == "strictmode" { // a boolean flag takes its value only in the --flag=value form
+			if _, isBool := o.value.(bool); rnd.Intn(2) == 0 || o.key == "strictmode" || isBool { // a boolean flag takes its value only in the --flag=value form
 				l.Args = append(l.Args, "--"+o.key+"="+joined(o.value))
 			} else {
 				l.Args = append(l.Args, "--"+o.key, joined(o.value))
@@ -431,10 +457,63 @@ func materialise(c config, dir string, w world) launch {
 const listedContext = "https://contexts.zorgverlener.nl/afspraken/v1.jsonld"
 
 func joined(v any) string {
-	if l, ok := v.([]string); ok {
-		return strings.Join(l, ",")
+	switch t := v.(type) {
+	case []string:
+		return strings.Join(t, ",")
+	case string:
+		return t
 	}
-	return v.(string)
+	return fmt.Sprint(v) // int, bool
+}
+
+// cacheBytes is the response cache size a configuration asks for.
+func cacheBytes(c config) (int, bool) {
+	switch c.V[fCache] {
+	case "0":
+		return 0, true // response caching off
+	case "1":
+		return 1, true // on, but nothing fits
+	case "large":
+		return 100 << 20, true
+	case "negative":
+		return -1, true
+	case "default-spelled-out":
+		return 10 << 20, true
+	}
+	return 10 << 20, false
+}
+
+// bystanders are the operational options of a configuration: none of them is mentioned by the documents as having any bearing on what
+// strict mode refuses (values typed as a user would write them in YAML).
+func bystanders(c config) []option {
+	var opts []option
+	add := func(k string, v any) { opts = append(opts, option{key: k, value: v}) }
+	if n, set := cacheBytes(c); set {
+		// the HTTP engine binds this option through the struct tag "cache.maxbytes": in a configuration file it reaches the engine when
+		// spelled `http: {cache.maxbytes: N}` (see the assumption in TestCheck); flags and environment use the documented name
+		opts = append(opts, option{key: "http.cache.maxbytes", value: n, fileKey: []string{"http", "cache.maxbytes"}})
+	}
+	ops := c.V[fOps]
+	if strings.Contains(ops, "quiet") {
+		add("http.log", "nothing")
+		add("http.clientipheader", "X-Real-IP")
+		add("loggerformat", "json")
+	}
+	if strings.Contains(ops, "slim") {
+		add("vcr.openid4vci.enabled", false)
+		add("goldenhammer.enabled", false)
+		add("network.enablediscovery", false)
+		add("internalratelimiter", false)
+	}
+	if strings.Contains(ops, "tuned") {
+		add("httpclient.timeout", "7s")
+		add("vcr.openid4vci.timeout", "7s")
+		add("auth.accesstokenlifespan", 900)
+		add("auth.clockskew", 1000)
+		add("auth.authorizationendpoint.enabled", true)
+		add("network.connectiontimeout", 2000)
+	}
+	return opts
 }
 
 func setPath(m map[string]any, key string, v any) {
@@ -567,7 +646,7 @@ func generate(r *ev.Run, secrets []string) []config {
 	// G1: product of the values the reference calls secure at start-up, strict mode on: all must run
 	secure := [][]string{
 		{"unset", "true"}, {"https-domain"}, {"full"}, values(fCrypto, th)[1:], values(fSQL, th)[1:], values(fValidators, th), {"unset", "pbdf"},
-		values(fJSONLD, th), values(fDID, th), values(fChannel, th), {"none", "env", "file"},
+		values(fJSONLD, th), values(fDID, th), values(fChannel, th), {"none", "env", "file"}, values(fCache, th), values(fOps, th),
 	}
 	sizes := func(v [][]string) []int {
 		s := make([]int, len(v))
@@ -601,6 +680,9 @@ func generate(r *ev.Run, secrets []string) []config {
 		if d.f == fTLS && len(tlsVariants[d.v]) > nb {
 			nb = len(tlsVariants[d.v])
 		}
+		if d.f == fSecret && len(values(fChannel, th)) > nb {
+			nb = len(values(fChannel, th))
+		}
 		for b := 0; b < nb; b++ {
 			row := make([]int, len(secure))
 			for f := range row {
@@ -624,12 +706,34 @@ func generate(r *ev.Run, secrets []string) []config {
 			}
 			if d.f == fSecret {
 				c.CLIFlag = secrets[(b+int(r.Seed()))%len(secrets)]
+				// what else is on the command line beside the secret (nothing, some options, all of them - sorting before and after it)
+				// is part of the input: walk through the delivery channels of the other options
+				ch := values(fChannel, th)
+				c.V[fChannel] = ch[(b+int(r.Seed()))%len(ch)]
 			}
 			out = append(out, c)
 			twin := c
 			twin.V[fStrict] = "false"
 			twin.Group = "single-deviation-nonstrict-twin"
 			out = append(out, twin)
+		}
+	}
+	// G2b: every value of every bystander option with strict mode off on a secure background ("the same settings are accepted with strict
+	// mode off" has to be observable on a running node under each of them; in strict mode G1 contains them all)
+	rnd = r.Rand("g2b")
+	for _, f := range []int{fCache, fOps} {
+		for _, v := range values(f, th)[1:] {
+			row := make([]int, len(secure))
+			for i := range row {
+				row[i] = rnd.Intn(len(secure[i]))
+			}
+			c := fromRow(secure, row, "bystander-nonstrict")
+			c.V[fStrict], c.V[f] = "false", v
+			if f == fCache {
+				c.V[fChannel] = "file" // the channel through which the value reaches the HTTP engine
+			}
+			concretise(&c, rnd, secrets)
+			out = append(out, c)
 		}
 	}
 	// G3: covering array over the complete product (pairwise; 3-wise in the thorough tier)
@@ -707,10 +811,12 @@ func TestCheck(t *testing.T) {
 	r := ev.Start(t, "C20", "exploration")
 	defer r.Finish()
 	r.SetRule("cases = configurations of the assembled node (strictmode x url x tls.* x crypto.storage x storage.sql.connection x auth.contractvalidators x " +
-		"auth.irma.schememanager x jsonld.contexts.remoteallowlist x didmethods x delivery channel x secret delivery), generated from the seed as (1) a pairwise covering array over the " +
+		"auth.irma.schememanager x jsonld.contexts.remoteallowlist x didmethods x delivery channel x secret delivery x bystander options the documents do not connect with strict mode: " +
+		"http.cache.maxbytes {unset, 0, 1, large, negative} x operational bundle {logging, optional subsystems off, time-outs}), generated from the seed as (1) a pairwise covering array over the " +
 		"start-up-secure values in strict mode, (2) every single insecure/moved/CLI-secret setting on random secure backgrounds with its non-strict twin, (3) a covering array over the " +
 		"complete product (pairwise quick, 3-wise thorough); each is started with the real `nuts server` command in its own child process. Plus outbound cases (strictmode, constructor, cache, " +
-		"method, URL class, redirect chain) through the real http/client. Plus, on every running node, JSON-LD context cases (allow list configuration, strictmode, " +
+		"method, URL class, redirect chain) through the real http/client, with the client switched through the package variables and through the real HTTP engine's Configure (strictmode x http.cache.maxbytes, " +
+		"fresh-process state before each). Plus, on every running node, JSON-LD context cases (allow list configuration, strictmode, " +
 		"route = document loader | JSON-LD reader | VC search API, listed entry, kind of look-alike URL derived from it: prefix extensions, truncations, suffix/substring embeddings, same host/other " +
 		"path, other host/same path, scheme, case, port, trailing dot, userinfo, percent-encoding, whitespace, dot segments, seeded random variants; listed contexts whose server nests/imports/" +
 		"redirects to/links an unlisted one), judged on the requests seen at the transport against exact membership in the configured list. A case is non-trivial when the child reported a decisive observation (refusal with its error, or a running node " +
@@ -719,6 +825,9 @@ func TestCheck(t *testing.T) {
 	r.Require(r.Pick(60, 400), r.Pick(50, 300))
 	r.Assume("network TLS on/off is the tls.* factor: this version has no network.enabletls, TLS is on iff tls.certfile/tls.certkeyfile are set")
 	r.Assume("the IRMA scheme directory is pre-populated with the signed empty scheme the repository ships (development/irma/empty) and auth.irma.autoupdateschemas=false: there is no internet")
+	r.Assume("http.cache.maxbytes reaches the HTTP engine of the assembled node only from a configuration file that spells it `http: {cache.maxbytes: N}` (the engine's struct tag is dotted); " +
+		"through --http.cache.maxbytes, NUTS_HTTP_CACHE_MAXBYTES and the nested YAML form the engine keeps its default (observed at the engine, counted as unspecified). The file channel therefore " +
+		"uses the effective spelling; which cache size a running node really had is read from its HTTP engine")
 	r.Assume("vaultkv is backed by a fake Vault in the check process that only answers the token self-lookup; remote hosts of outbound requests are listeners inside the child process")
 
 	secrets, nflags := secretFlags()
@@ -731,6 +840,7 @@ func TestCheck(t *testing.T) {
 	defer vault.Close()
 	w := world{vaultAddr: vault.URL, pki: filepath.Join(repoDir(), "test", "pki")}
 
+	t0 := time.Now()
 	cases := generate(r, secrets)
 	thorough := r.Thorough()
 	results := make([]result, len(cases))
@@ -745,18 +855,30 @@ func TestCheck(t *testing.T) {
 			}
 		}()
 	}
+	// the direct part (real http/client in THIS process) shares nothing with the child processes: it runs beside them
+	directDone := make(chan struct{})
+	go func() {
+		defer close(directDone)
+		outboundDirect(t, r)
+	}()
 	for i := range cases {
 		work <- i
 	}
 	close(work)
 	wg.Wait()
+	fmt.Printf("NOTE property=C20 TIMING children done %v\n", time.Since(t0))
 
 	for _, res := range results {
 		evaluate(r, res)
 	}
 	coverage(r, cases)
+	bystanderCoverage(r, results)
 	batteryCoverage(r, results)
-	outboundDirect(t, r)
+	<-directDone
+	for _, s := range directSamples {
+		r.Sample(s)
+	}
+	fmt.Printf("NOTE property=C20 TIMING direct done %v\n", time.Since(t0))
 }
 
 func witness(res result) map[string]any {
@@ -845,6 +967,15 @@ func evaluate(r *ev.Run, res result) {
 	if o.ClientStrict != c.strict() {
 		r.Violation("C20/http-client-strictmode-mismatch", fmt.Sprintf("node runs with strictmode=%v but its HTTP client has StrictMode=%v", c.strict(), o.ClientStrict), witness(res))
 	}
+	if want, set := cacheBytes(c); set && o.CacheBytes != want {
+		r.Unspecified("http.cache.maxbytes given through flag/environment did not reach the HTTP engine (engine keeps its default): not a strict mode matter")
+		r.Count("cache_size_not_effective", 1)
+	} else if set {
+		r.Count("cache_size_effective", 1)
+	}
+	if o.CacheActive != (o.CacheBytes > 0) {
+		r.Unspecified("caching transport installed although the engine's cache size is <= 0, or the reverse")
+	}
 	if !o.Stopped {
 		r.Inconclusive("running node was not observed to stop: " + tail(o.Output, 300))
 	}
@@ -865,6 +996,9 @@ func keyOf(reasons []string) string {
 var guardedIAM = map[string]bool{"iam.ClientMetadata": true, "iam.PresentationDefinition": true, "iam.RequestObjectByGet": true, "iam.RequestObjectByPost": true,
 	"iam.AuthorizationServerMetadata": true, "iam.OpenIDConfiguration": true, "iam.OpenIdCredentialIssuerMetadata": true, "iam.PostError": true,
 	"iam.PostAuthorizationResponse": true, "iam.AccessToken": true}
+
+// schemeOnlyVia: consumers judged on plain-HTTP URLs only (see evaluateOutbound)
+var schemeOnlyVia = map[string]bool{"auth.RelyingParty.RequestRFC003AccessToken": true}
 
 func plainAttempts(attempts []string) []string {
 	var out []string
@@ -946,6 +1080,23 @@ func evaluateOutbound(r *ev.Run, where string, strict bool, p ledgerLine, w map[
 		r.Violation("C20/panic/"+p.Via, "outbound request panicked: "+p.Err, w)
 		return
 	}
+	if schemeOnlyVia[p.Via] {
+		// a consumer that talks TLS with the node's own trust store: the fake remote hosts fail its handshake, so only what happens to
+		// plain-HTTP URLs is observable through it
+		switch {
+		case strict && len(plain) > 0:
+			r.Violation("C20/strict/plain-http-attempted/"+p.Via+"/"+p.Class, fmt.Sprintf("strict mode: a plain-HTTP request left the client (%s, %s): %v", p.Via, p.URL, plain), w)
+		case strict && strings.HasPrefix(p.Class, "http-") && p.OK:
+			r.Violation("C20/strict/plain-http-reported-success/"+p.Via+"/"+p.Class, "strict mode: request to "+p.URL+" reported success", w)
+		case strict && strings.HasPrefix(p.Class, "http-"):
+			r.Count("strict_plain_http_refused", 1)
+		case !strict && strings.HasPrefix(p.Class, "http-") && len(plain) == 0:
+			r.Violation("C20/nonstrict/request-refused/"+p.Via+"/"+p.Class, fmt.Sprintf("strict mode off: request to %s was not sent (%s): %s", p.URL, p.Via, p.Err), w)
+		case !strict && strings.HasPrefix(p.Class, "http-"):
+			r.Count("nonstrict_requests_sent", 1)
+		}
+		return
+	}
 	expectPlain := strings.HasPrefix(p.Class, "http-") || strings.HasSuffix(p.Class, "-to-http") || strings.Contains(p.Class, "-to-http-")
 	hostClass := strings.HasSuffix(p.Class, "-ip") || strings.HasSuffix(p.Class, "-localhost") || strings.HasSuffix(p.Class, "-reserved")
 	if strict {
@@ -988,6 +1139,49 @@ func evaluateOutbound(r *ev.Run, where string, strict bool, p ledgerLine, w map[
 	}
 	r.Count("nonstrict_requests_sent", 1)
 	_ = where
+}
+
+// bystanderCoverage: every value of the bystander options has to have been seen on a RUNNING node in strict mode and with strict mode
+// off, with the outbound probes carried out there - otherwise "strict mode holds under every operational setting" was not observed at all.
+func bystanderCoverage(r *ev.Run, results []result) {
+	seen := map[string]int{}
+	for _, res := range results {
+		if !res.o.Running {
+			continue
+		}
+		outbound := 0
+		for _, p := range res.o.Probes {
+			if p.Probe == "outbound" {
+				outbound++
+			}
+		}
+		if outbound == 0 {
+			continue
+		}
+		mode := "strict"
+		if !res.c.strict() {
+			mode = "nonstrict"
+		}
+		for _, f := range []int{fCache, fOps} {
+			if want, set := cacheBytes(res.c); f == fCache && set && res.o.CacheBytes != want {
+				seen[factors[f].name+"="+res.c.V[f]+"(not effective)/"+mode]++
+				continue
+			}
+			k := factors[f].name + "=" + res.c.V[f] + "/" + mode
+			seen[k]++
+			r.Distinct("bystander_value_x_mode_on_running_node", k)
+		}
+	}
+	r.Extra("bystander_values_on_running_nodes", seen)
+	for _, f := range []int{fCache, fOps} {
+		for _, v := range values(f, r.Thorough()) {
+			for _, mode := range []string{"strict", "nonstrict"} {
+				if seen[factors[f].name+"="+v+"/"+mode] == 0 {
+					r.Inconclusive("no running " + mode + " node with " + factors[f].name + "=" + v + " carried out the outbound probes")
+				}
+			}
+		}
+	}
 }
 
 // coverage measures which option-value pairs the executed configurations contain.
